@@ -306,3 +306,51 @@ where
         batch_mode,
     )
 }
+
+/// Frame one batch exactly as the multiplexer thread writes it on its TCP connection
+/// (`remote_send`): header (size, destination replica, sender block) followed by the body.
+#[cfg(not(feature = "tokio"))]
+pub fn frame<T: ExchangeData>(
+    batch: Vec<StreamElement<T>>,
+    sender: (u64, u64, u64),
+    dest: (u64, u64, u64),
+    prev_block: BlockId,
+) -> Vec<u8> {
+    let mut buf = Vec::new();
+    let msg = NetworkMessage::new_batch(batch, Coord::new(sender.0, sender.1, sender.2));
+    let endpoint = ReceiverEndpoint::new(Coord::new(dest.0, dest.1, dest.2), prev_block);
+    crate::network::verif_framing::remote_send(msg, endpoint, &mut buf, "verif");
+    buf
+}
+
+/// Decode a byte stream exactly as a demultiplexer thread of `(block, host) <- prev_block`
+/// reads its TCP connection (`remote_recv` until it returns `None`): for every frame the
+/// destination replica, the sender block and the batch.
+#[cfg(not(feature = "tokio"))]
+#[allow(clippy::type_complexity)]
+pub fn unframe<T: ExchangeData>(
+    demux: (u64, u64, u64),
+    bytes: &[u8],
+) -> Vec<((u64, u64, u64), BlockId, (u64, u64, u64), Vec<StreamElement<T>>)> {
+    let coord = crate::network::DemuxCoord {
+        coord: crate::network::BlockCoord {
+            block_id: demux.0,
+            host_id: demux.1,
+        },
+        prev_block_id: demux.2,
+    };
+    let mut reader = std::io::Cursor::new(bytes);
+    let mut res = vec![];
+    while let Some((dest, msg)) =
+        crate::network::verif_framing::remote_recv::<T, _>(coord, &mut reader, "verif")
+    {
+        let s = msg.sender();
+        res.push((
+            (dest.coord.block_id, dest.coord.host_id, dest.coord.replica_id),
+            dest.prev_block_id,
+            (s.block_id, s.host_id, s.replica_id),
+            msg.into_iter().collect(),
+        ));
+    }
+    res
+}
